@@ -18,4 +18,8 @@ def extra(ctx, res):
 
     with res.guard("check_filter_clientsctx, res, DEGREE  CC  VISITS"):
         check_filter_clients(ctx, res, DEGREE + CC + VISITS)
+    with res.guard("general lint pack over the property's files"):
+        from ..lints import check_pack
+
+        check_pack(ctx, res, "C01")
     return res
